@@ -165,6 +165,12 @@ except Exception:
     pass
 
 NOTES = {
+    'C17-r9-automaton-active-is-False': 'round 9. **Missed at first** (activity callables of the stand-in returned Python bools). Added: activity tables of odd edge ids are numpy bool masks (the callable returns numpy.bool_), and a new engine-F obligation `callback_result_used_by_truth_value` on `from_automaton`; both report it now.',
+    'C16-r9-add-copy-only-on-id-overlap': 'round 9. Two agents (C16, C19) produced the same change independently; engine F refutes `modifies` / `no_capture[other->self]` of `OpGraph.add` for all inputs (definite write), the stand-in has disjoint-id graphs.',
+    'C19-r9-add-copy-only-on-id-overlap': 'round 9. As above; C19 reports the named obligation with no-failing-input-found (its generators do not produce id-disjoint graphs), C16 supplies the replayed input.',
+    'C18-r9-phase-cap-isqrt': 'round 9. Caught: the heap-level execution proof of `HopcroftKarp.__call__` is lost (loop shape changed) and the stand-in has graphs needing more phases than the cap (4 cases).',
+    'C20-r9-zero-filter-abs-ge-tol': 'round 9. Caught by the chain-count bound of C20 (618 cases); C05 is rightly silent (the operator is unchanged).',
+
     'C03-identity-shared-tensor': 'deliberately not alarmed on (see meta.json: no listed property is violated; the demonstration edits a site tensor of the result in place)',
     'C03-identity-shared-site-tensor': 'deliberately not alarmed on (same change as C03-identity-shared-tensor, proposed again in round 3; see section 6: no public operation writes into a site tensor, the demonstration does)',
     'C03-add-mps-block-dtype': 'first run: MISSED. r_C03 now builds operands of mixed entry kinds (real + complex + integer)',
